@@ -1249,6 +1249,7 @@ func main() {
 	case "C14":
 		streamC14(r)
 		streamC14Held(r.Fork("held"))
+		streamC14SameShape(r.Fork("sameshape"))
 	case "C15":
 		streamC15(r)
 	case "C10":
@@ -1542,4 +1543,209 @@ func streamC14Held(r *hx.Rng) {
 				fmt.Sprintf("after-reaccess=%v after-close-and-reuse=%v", po.heldAfterReaccess, po.heldAfterReuse), "pool-held")
 		}
 	}
+}
+
+// reshape: a message of the same shape as ns (same field numbers, wire types, occurrence and element counts,
+// nesting) with fresh leaf values
+func reshape(r *hx.Rng, ns []*node, lv *level) []*node {
+	out := make([]*node, len(ns))
+	for i, n := range ns {
+		c := &node{num: n.num, wt: n.wt}
+		switch {
+		case n.wt == 0:
+			c.v = randVarint(r)
+		case n.wt == 5:
+			c.v = uint64(uint32(r.U64()))
+		case n.wt == 1:
+			c.v = r.U64()
+		case n.kids != nil:
+			sub := lv
+			if lv != nil && lv.sub[n.num] != nil {
+				sub = lv.sub[n.num]
+			}
+			c.kids = reshape(r, n.kids, sub)
+		default:
+			role := -1
+			if lv != nil {
+				role = lv.roles[n.num]
+			}
+			switch role {
+			case rolePackedVarint:
+				rest := n.b
+				for len(rest) > 0 {
+					_, k := protowire.ConsumeVarint(rest)
+					if k <= 0 {
+						break
+					}
+					rest = rest[k:]
+					c.b = protowire.AppendVarint(c.b, randVarint(r))
+				}
+			case rolePackedFixed32, rolePackedFixed64:
+				c.b = r.Bytes(len(n.b))
+			default:
+				c.b = r.Bytes(len(n.b))
+			}
+			if c.b == nil {
+				c.b = []byte{}
+			}
+		}
+		out[i] = c
+	}
+	return out
+}
+
+// every accessor of every declared path, each kind, single and slice
+func sweep(res *lazyproto.DecodeResult, d *def) []string {
+	var paths [][]int
+	var collect func(d *def, prefix []int, depth int)
+	collect = func(d *def, prefix []int, depth int) {
+		for _, k := range d.keys {
+			p := append(append([]int{}, prefix...), k)
+			paths = append(paths, p)
+			if s := d.sub[k]; s != nil && depth < 3 {
+				collect(s, p, depth+1)
+			}
+		}
+	}
+	collect(d, nil, 0)
+	var out []string
+	for _, p := range paths {
+		for _, kind := range kinds {
+			for _, slice := range []bool{false, true} {
+				o := aop{typ: 'F', path: p, kind: kind, slice: slice}
+				out = append(out, o.token()+"="+observe(res, o))
+			}
+		}
+	}
+	return out
+}
+
+// C14, third oracle: a pooled result that served a message A (every accessor called), was closed and then
+// serves a message B of the SAME shape must answer every accessor exactly like a decoder that never saw A
+func streamC14SameShape(r *hx.Rng) {
+	n := 150
+	if thorough {
+		n = 2500
+	}
+	for i := 0; i < n; i++ {
+		lv := randLevel(r, 2)
+		d := randDef(r, lv, 2)
+		if len(d.keys) == 0 {
+			continue
+		}
+		a := randMessage(r, lv)
+		b := reshape(r, a, lv)
+		if i%3 == 2 {
+			// ... and of ANOTHER shape (other occurrence counts, other wire types for "mixed" tags)
+			b = randMessage(r, lv)
+		}
+		if i%3 == 1 {
+			// ... or the same numbers with the other legal wire form: packed runs unpacked, single varints packed
+			b = flipPacked(b, lv)
+		}
+		inA, inB := encodeAll(a), encodeAll(b)
+		if len(inA) == 0 || len(inB) == 0 {
+			continue
+		}
+		for _, fast := range []bool{false, true} {
+			for _, mb := range []int{-1, 0, 1, 2, 1000} {
+				mk := func() *lazyproto.Decoder {
+					opts := []lazyproto.Option{}
+					if fast {
+						opts = append(opts, lazyproto.WithMode(csproto.DecoderModeFast))
+					}
+					if mb >= 0 {
+						opts = append(opts, lazyproto.WithMaxBufferSize(mb))
+					}
+					dec, err := lazyproto.NewDecoder(d.toGo(), opts...)
+					if err != nil {
+						return nil
+					}
+					return dec
+				}
+				used, fresh := mk(), mk()
+				if used == nil || fresh == nil {
+					continue
+				}
+				cs := fmt.Sprintf("def=%s A=%s B=%s fast=%v maxbuf=%d", d, hx.B(inA), hx.B(inB), fast, mb)
+				hx.Inflight("C14 same-shape: " + cs)
+				got, want := func() (g []string) {
+					defer func() {
+						if recover() != nil {
+							g = []string{"panic"}
+						}
+					}()
+					ra, err := used.Decode(append([]byte{}, inA...))
+					if err != nil || ra == nil {
+						return nil
+					}
+					sweep(ra, d)
+					_ = ra.Close()
+					rb, err := used.Decode(append([]byte{}, inB...))
+					if err != nil || rb == nil {
+						return []string{"decode-error"}
+					}
+					defer rb.Close()
+					return sweep(rb, d)
+				}(), func() []string {
+					rb, err := fresh.Decode(append([]byte{}, inB...))
+					if err != nil || rb == nil {
+						return []string{"decode-error"}
+					}
+					defer rb.Close()
+					return sweep(rb, d)
+				}()
+				if got == nil {
+					continue
+				}
+				sink.OracleN++
+				sink.Count("sameshape-probe")
+				for j := range want {
+					if j >= len(got) || got[j] != want[j] {
+						g := "missing"
+						if j < len(got) {
+							g = got[j]
+						}
+						fail("a recycled pooled result answers differently from a decoder that never served another message", cs, want[j], g, "pool-stale")
+						break
+					}
+				}
+			}
+		}
+	}
+}
+
+// flipPacked re-encodes repeated numeric fields in their other legal form: every varint occurrence of a
+// varint-role tag becomes a one-element packed run, every packed varint run is expanded into single varints
+func flipPacked(ns []*node, lv *level) []*node {
+	var out []*node
+	for _, n := range ns {
+		role := -1
+		if lv != nil {
+			role = lv.roles[n.num]
+		}
+		switch {
+		case n.kids != nil:
+			sub := lv
+			if lv != nil && lv.sub[n.num] != nil {
+				sub = lv.sub[n.num]
+			}
+			out = append(out, &node{num: n.num, wt: 2, kids: flipPacked(n.kids, sub)})
+		case role == roleVarint && n.wt == 0:
+			out = append(out, &node{num: n.num, wt: 2, b: protowire.AppendVarint([]byte{}, n.v)})
+		case role == rolePackedVarint && n.wt == 2:
+			rest := n.b
+			for len(rest) > 0 {
+				v, k := protowire.ConsumeVarint(rest)
+				if k <= 0 {
+					break
+				}
+				rest = rest[k:]
+				out = append(out, &node{num: n.num, wt: 0, v: v})
+			}
+		default:
+			out = append(out, n)
+		}
+	}
+	return out
 }
